@@ -598,12 +598,9 @@ public:
 	bool SerializeValue(T& value)
 	{
 		CheckEnd();
-		if (mMsgPackReader->ReadValue(value))
-		{
-			++mIndex;
-			return true;
-		}
-		return false;
+		// The reader always consumes the value (it is loaded or skipped according to the policies)
+		++mIndex;
+		return mMsgPackReader->ReadValue(value);
 	}
 
 	/// <summary>
@@ -625,9 +622,9 @@ public:
 	std::optional<CMsgPackReadArrayScope<TReader>> OpenArrayScope(size_t)
 	{
 		CheckEnd();
+		++mIndex;
 		if (size_t sz = 0; mMsgPackReader->ReadArraySize(sz))
 		{
-			++mIndex;
 			return std::make_optional<CMsgPackReadArrayScope<TReader>>(sz, mMsgPackReader, GetContext(), this);
 		}
 		return std::nullopt;
@@ -636,9 +633,9 @@ public:
 	std::optional<CMsgPackReadObjectScope<TReader>> OpenObjectScope(size_t)
 	{
 		CheckEnd();
+		++mIndex;
 		if (size_t sz = 0; mMsgPackReader->ReadMapSize(sz))
 		{
-			++mIndex;
 			return std::make_optional<CMsgPackReadObjectScope<TReader>>(sz, mMsgPackReader, GetContext(), this);
 		}
 		return std::nullopt;
